@@ -7043,7 +7043,15 @@ size_t ZSTD_compressSequences(ZSTD_CCtx* cctx,
     /* Transparent initialization stage, same as compressStream2() */
     DEBUGLOG(4, "ZSTD_compressSequences (dstCapacity=%zu)", dstCapacity);
     assert(cctx != NULL);
-    FORWARD_IF_ERROR(ZSTD_CCtx_init_compressStream2(cctx, ZSTD_e_end, srcSize), "CCtx initialization failed");
+    {   /* Sequences are transcribed by the calling thread into the context's own block state :
+         * this entry point is single-threaded, whatever ZSTD_c_nbWorkers says (as it already is for small inputs) */
+        int const originalNbWorkers = cctx->requestedParams.nbWorkers;
+        size_t initResult;
+        cctx->requestedParams.nbWorkers = 0;
+        initResult = ZSTD_CCtx_init_compressStream2(cctx, ZSTD_e_end, srcSize);
+        cctx->requestedParams.nbWorkers = originalNbWorkers;
+        FORWARD_IF_ERROR(initResult, "CCtx initialization failed");
+    }
     /* Begin writing output, starting with frame header */
     frameHeaderSize = ZSTD_writeFrameHeader(op, dstCapacity, &cctx->appliedParams, srcSize, cctx->dictID);
     FORWARD_IF_ERROR(frameHeaderSize, "Writing the frame header failed");
